@@ -26,6 +26,9 @@ type Layout struct {
 	// after the previous option's body, `===`): the indentation rule closes every level
 	// wider than the line and opens none, so the nesting is the same
 	Ragged bool
+	// an explicit type after the value of a declare statement (`<<declare $x = 1 as number>>`): 0 none,
+	// 1 the type of the value, 2 any of string / number / bool - what is stored is the value's own (C03)
+	DeclAs int
 	rnd    *rand.Rand
 }
 
@@ -51,13 +54,14 @@ func randomLayout(rnd *rand.Rand) *Layout {
 	if rnd.Intn(3) > 0 {
 		l.JunkProb = 0.15 + 0.3*rnd.Float64()
 	}
+	l.DeclAs = l.rnd.Intn(3)
 	return l
 }
 
 func (l *Layout) describe() map[string]any {
 	return map[string]any{"tabs": l.Tabs, "unit": l.Unit, "junk": l.JunkProb > 0, "crlf": l.CRLF, "spelling": l.Spelling,
 		"parens": l.Parens, "cmdspaces": l.CmdSpaces, "indentif": l.IndentIf, "trailing": l.TrailingCm,
-		"extrahead": l.ExtraHead, "nofinalnl": l.NoFinalNL, "ragged": l.Ragged}
+		"extrahead": l.ExtraHead, "nofinalnl": l.NoFinalNL, "ragged": l.Ragged, "declas": l.DeclAs}
 }
 
 func (l *Layout) nl() string {
@@ -374,7 +378,14 @@ func (r *renderer) stmt(s Stmt, d int) {
 			l.Parens = 0
 			v := l.expr(s.E)
 			l.Parens = saved
-			r.line(d, r.cmd("declare"+sp()+"$"+s.Var+sp()+"="+sp()+v))
+			as := ""
+			if tn, ok := map[string]string{"num": "number", "str": "string", "bool": "bool"}[s.E.K]; ok && l.DeclAs > 0 {
+				if l.DeclAs == 2 {
+					tn = []string{"number", "string", "bool"}[l.rnd.Intn(3)]
+				}
+				as = " as " + tn
+			}
+			r.line(d, r.cmd("declare"+sp()+"$"+s.Var+sp()+"="+sp()+v+as))
 			return
 		}
 		op := s.Op
